@@ -20,6 +20,8 @@ type Gram struct {
 	nlabel int
 	Class  bool
 	depth  int
+	// NoBlockComments switches the /*…*/ comments at token boundaries off.
+	NoBlockComments bool
 }
 
 func NewGram(r *vh.Rand) *Gram { return &Gram{R: r} }
@@ -29,22 +31,40 @@ func (g *Gram) chance(p int) bool      { return g.R.Chance(p) }
 
 // s: mandatory horizontal space; o: optional space.
 func (g *Gram) s() string {
-	switch g.R.Intn(12) {
-	case 0:
+	switch g.R.Intn(40) {
+	case 0, 1, 2:
 		return "  "
-	case 1:
+	case 3, 4, 5:
 		return "\t"
+	case 6:
+		return g.pick(" ", "") + g.blockComment() + g.pick(" ", "")
 	}
 	return " "
 }
 func (g *Gram) o() string {
-	switch g.R.Intn(6) {
-	case 0:
+	switch g.R.Intn(48) {
+	case 0, 1, 2, 3, 4, 5, 6, 7:
 		return " "
-	case 1:
+	case 8, 9, 10, 11, 12, 13, 14, 15:
 		return "  "
+	case 16:
+		return g.blockComment()
 	}
 	return ""
+}
+
+// blockComment: a general comment, single- or multi-line.
+func (g *Gram) blockComment() string {
+	if g.NoBlockComments {
+		return ""
+	}
+	switch g.R.Intn(8) {
+	case 0:
+		return "/* m" + fmt.Sprint(g.R.Intn(9)) + "\n   more */"
+	case 1:
+		return "/**/"
+	}
+	return "/* b" + fmt.Sprint(g.R.Intn(9)) + " */"
 }
 
 // nl: end of a line, possibly with a trailing / following comment or an empty line.
@@ -74,8 +94,90 @@ func (g *Gram) ident() string {
 	return g.pick("a", "b", "c", "x", "y", "n", "i", "xs", "m", "f", "g", "ok", "err", "s", "t", "v", "ch", "p", "T", "buf")
 }
 
+// quoted content pieces shared by the string-like literals
+var gramEsc = []string{`\a`, `\b`, `\f`, `\n`, `\r`, `\t`, `\v`, `\\`, `\x41`, `\u00e9`, `\U0001F600`, `\101`, `\000`}
+var gramRaw = []string{"a", "Z", "0", " ", "\t", "\x01", "\x7f", "é", "世", "😀", "#", "/*", "//", "`"}
+
+func (g *Gram) strBody(quote byte, interp bool) string {
+	var b strings.Builder
+	for i, n := 0, g.R.Intn(5); i < n; i++ {
+		switch g.R.Intn(7) {
+		case 0, 1:
+			b.WriteString(gramEsc[g.R.Intn(len(gramEsc))])
+		case 2:
+			if quote == '"' {
+				b.WriteString(g.pick(`\"`, "'"))
+			} else {
+				b.WriteString(g.pick(`\'`, `"`))
+			}
+		case 3:
+			if interp {
+				b.WriteString(g.pick("${x}", "${x + 1}", "$$", "${f(a)}", "$x", "${a.b}"))
+			} else {
+				b.WriteString("z")
+			}
+		default:
+			c := gramRaw[g.R.Intn(len(gramRaw))]
+			if c == "`" && quote == '`' {
+				c = "q"
+			}
+			b.WriteString(c)
+		}
+	}
+	return b.String()
+}
+
+func (g *Gram) number() string {
+	switch g.R.Intn(8) {
+	case 0:
+		return g.pick("0", "1", "42", "007", "1_000", "9_9")
+	case 1:
+		return g.pick("0x1F", "0X1f", "0x_1F", "0xdead_beef", "0o17", "0O7", "017", "0b101", "0B1_0")
+	case 2:
+		return g.pick("1.5", ".5", "1.", "0.0", "1_0.2_5", "00.5")
+	case 3:
+		return g.pick("1e3", "1E+3", "1e-3", "1.5e10", ".5E2", "0x1p-2", "0X1P+2", "0x1.8p1", "0x.8p0")
+	case 4:
+		return g.pick("2i", "1.5i", "0i", "1e3i", "0x1p0i", "0b1i", "017i")
+	case 5:
+		return g.pick("1r", "3r", "1_0r")
+	case 6:
+		return g.pick("3m", "1.5s", "5ms", "2h", "10km", "7d")
+	}
+	return g.pick("1", "2", "10")
+}
+
 func (g *Gram) lit() string {
-	return g.pick("0", "1", "42", "0x1F", "1.5", "1e3", "'a'", `"s"`, "`raw`", `"a\tb"`, "2i", "1r", "3m", `"v=${x}"`, "true", "nil", `c"cs"`, "0b11", "1_000")
+	switch g.R.Intn(12) {
+	case 0, 1, 2:
+		return g.number()
+	case 3:
+		// rune literals: plain, raw TAB / control / non-ASCII bytes, every escape form
+		switch g.R.Intn(4) {
+		case 0:
+			return "'" + g.pick("a", " ", "\t", "\x01", "é", "世", "😀", "\"", "#") + "'"
+		case 1:
+			return "'" + gramEsc[g.R.Intn(len(gramEsc))] + "'"
+		case 2:
+			return `'\''`
+		}
+		return "'x'"
+	case 4, 5:
+		return `"` + g.strBody('"', true) + `"`
+	case 6:
+		body := g.strBody('`', false)
+		if g.chance(25) {
+			body += "\n\tline2\n"
+		}
+		return "`" + body + "`"
+	case 7:
+		return `c"` + g.strBody('"', false) + `"`
+	case 8:
+		return `py"` + g.strBody('"', false) + `"`
+	case 9:
+		return g.pick("true", "false", "nil", "iota")
+	}
+	return g.pick(`"s"`, "1", `"k"`)
 }
 
 var gramBin = []string{"||", "&&", "==", "!=", "<", "<=", ">", ">=", "+", "-", "|", "^", "*", "/", "%", "<<", ">>", "&", "&^"}
@@ -390,6 +492,10 @@ func (g *Gram) block(d int) string {
 	if g.chance(8) {
 		return "{" + g.pick("", " ", "\n") + "}"
 	}
+	if g.chance(10) {
+		// statements on the line of the opening brace
+		return "{" + g.s() + g.stmts(d, 2) + "}"
+	}
 	return "{" + g.nl() + g.stmts(d, 3) + "}"
 }
 
@@ -400,13 +506,21 @@ func (g *Gram) stmts(d, max int) string {
 	for i := 0; i < n; i++ {
 		last := i == n-1
 		b.WriteString(g.stmt(d, last))
-		if g.chance(6) {
+		switch {
+		case g.chance(6):
 			b.WriteString(";" + g.pick(" ", "", "\n"))
 			if g.chance(40) {
 				b.WriteString(";") // an extra empty statement
 			}
 			b.WriteString("\n")
-		} else {
+		case g.chance(8):
+			// the next statement (or the closing brace) follows on the same line
+			if g.chance(35) {
+				b.WriteString(";" + g.pick(" ", "") + g.blockComment() + g.pick(" ", ""))
+			} else {
+				b.WriteString(";" + g.s())
+			}
+		default:
 			b.WriteString(g.nl())
 		}
 	}
@@ -581,6 +695,14 @@ func (g *Gram) stmt(d int, last bool) string {
 	case 35:
 		return "type (\n\tA1 " + g.typ(1) + "\n\tB1 = " + g.typ(1) + "\n)"
 	case 36:
+		switch g.R.Intn(4) {
+		case 0:
+			return g.ident() + " := " + g.pick("T", "[]func()", "map[string]func(int) int", "pkg.T") + "{" + g.pick("", "f: ", `"k": `) + "func(" + g.params(1, false) + ")" + g.results(1) + " {" + g.nl() + g.stmts(d-1, 2) + "}" + g.pick("", ",\n") + "}"
+		case 1:
+			return g.callee(1, false) + "(func() {" + g.nl() + g.stmts(d-1, 2) + "}, " + g.pick("x => x + 1", "(a, b) => {\n"+g.stmts(d-1, 2)+"}", g.ident()) + ")"
+		case 2:
+			return "var " + g.ident() + " = [" + g.pick("x => {\n"+g.stmts(d-1, 2)+"}", "func() {}", "=> 1") + ", " + g.expr(1, false) + "]"
+		}
 		return "for {" + g.nl() + g.stmts(d-1, 2) + "}"
 	case 37:
 		return "if " + g.expr(d-1, true) + " {" + g.nl() + g.stmts(d-1, 2) + "} else {" + g.nl() + g.stmts(d-1, 1) + "}"
@@ -718,7 +840,23 @@ func (g *Gram) Program() (text string, class bool, name string) {
 	}
 	b.WriteString(g.imports())
 	if g.Class && g.chance(70) {
-		b.WriteString("var (\n\tname string" + g.nl() + "\tn, m int" + g.nl() + "\t*Base\n)" + g.nl())
+		// the field block of a class file: names, embedded types, tags, comments
+		b.WriteString("var (" + g.pick("\n", " // fields\n"))
+		for i, n := 0, 1+g.R.Intn(4); i < n; i++ {
+			switch g.R.Intn(4) {
+			case 0:
+				b.WriteString("\t" + g.pick("*Base", "Base", "pkg.T", "*pkg.T"))
+			case 1:
+				b.WriteString("\t" + g.ident() + fmt.Sprint(i) + "," + g.s() + g.ident() + fmt.Sprint(i) + "b" + g.s() + g.typ(1))
+			default:
+				b.WriteString("\t" + g.ident() + fmt.Sprint(i) + g.s() + g.typ(1))
+			}
+			if g.chance(30) {
+				b.WriteString(g.s() + g.pick("`json:\"a\"`", `"tag"`, "`x:\"1\"\ty:\"2\"`"))
+			}
+			b.WriteString(g.nl())
+		}
+		b.WriteString(")" + g.nl())
 	}
 	for i, n := 0, g.R.Intn(5); i < n; i++ {
 		if g.R.Bool() {
@@ -733,5 +871,12 @@ func (g *Gram) Program() (text string, class bool, name string) {
 		g.labels, g.nlabel = nil, 0
 		b.WriteString(g.stmts(3, 5))
 	}
-	return b.String(), g.Class, name
+	text = b.String()
+	if g.chance(6) {
+		text = strings.ReplaceAll(text, "\n", "\r\n")
+	}
+	if g.chance(10) {
+		text = strings.TrimRight(text, "\r\n")
+	}
+	return text, g.Class, name
 }
